@@ -73,7 +73,8 @@ class Generator(CodeGenerator):
             self: Any, fcp: FcpV2, impl: Impl
         ) -> Result[Nil, FcpError]:
             impl_ids = [impl.fields.get("id") for impl in fcp.impls]
-            if impl_ids.count(impl.fields.get("id")) > 1:
+            id = impl.fields.get("id")
+            if id is not None and impl_ids.count(id) > 1:
                 return error("Duplicate ids", node=impl)
             else:
                 return Ok(())
